@@ -61,7 +61,7 @@ void dumpv(Out o) { println("V", o.x, o.in.a, o.in.b, o.ys[0], o.ys[1]); }
 """
 
 # layout of the root value: o1 o2 i1 oa ar1 ar2 n1
-VARS = ["o1", "o2", "i1", "oa", "ar1", "ar2", "n1"]
+VARS = ["o1", "o2", "i1", "oa", "ar1", "ar2", "n1", "pt1"]
 OUT_LEAVES = [("x", "0"), ("in.a", "1.0"), ("in.b", "1.1"), ("ys[0]", "2.0"), ("ys[1]", "2.1")]
 PT_LEAVES = [("x", "0"), ("in.a", "1.0"), ("in.b", "1.1")]
 
@@ -80,6 +80,8 @@ def leaves():
         for i in range(3):
             out.append(("%s[%d]" % (v, i), "%d.%d" % (n, i)))
     out.append(("n1", "6"))
+    for e, p in PT_LEAVES:
+        out.append(("pt1.%s" % e, "7.%s" % p))
     return out
 
 
@@ -107,7 +109,8 @@ def rand_init(r):
         return [r.range(-50, 50), [r.range(-50, 50), r.range(-50, 50)], [r.range(-50, 50), r.range(-50, 50)]]
     return {"o1": out(), "o2": out(), "i1": [r.range(-50, 50), r.range(-50, 50)],
             "oa": [[r.range(-50, 50), [r.range(-50, 50), r.range(-50, 50)]] for _ in range(2)],
-            "ar1": [r.range(-50, 50) for _ in range(3)], "ar2": [r.range(-50, 50) for _ in range(3)], "n1": r.range(-50, 50)}
+            "ar1": [r.range(-50, 50) for _ in range(3)], "ar2": [r.range(-50, 50) for _ in range(3)], "n1": r.range(-50, 50),
+            "pt1": [r.range(-50, 50), [r.range(-50, 50), r.range(-50, 50)]]}
 
 
 # ---- operation kinds: name -> generator(r, st) returning (cb, model_ops, callee_print or None)
@@ -127,7 +130,7 @@ def op_table():
 
     @reg("w_plain")
     def _(r, st):
-        e, p = r.choice([l for l in LEAVES if l[0].count(".") == 1 and "[" not in l[0] or l[0] == "n1"])
+        e, p = r.choice([l for l in LEAVES if (l[0].count(".") == 1 and "[" not in l[0]) or l[0] == "n1"])
         v = V(r)
         return "%s = %d;" % (e, v), ["w d:%s %d" % (p, v)], None
 
@@ -316,6 +319,21 @@ def op_table():
         k = r.below(2)
         return "i1 = oa[%d].in;" % k, ["c d:2 d:3.%d.1" % k], None
 
+    @reg("c_sa_out")
+    def _(r, st):
+        k = r.below(2)
+        return "pt1 = oa[%d];" % k, ["c d:7 d:3.%d" % k], None
+
+    @reg("c_sa_in_var")
+    def _(r, st):
+        k = r.below(2)
+        return "oa[%d] = pt1;" % k, ["c d:3.%d d:7" % k], None
+
+    @reg("c_from_deref")
+    def _(r, st):
+        n = 1 - st["p1"]
+        return "o%d = *p1;" % (n + 1), ["c d:%d p:0:" % n], None
+
     @reg("c_array")
     def _(r, st):
         a = r.below(2)
@@ -401,6 +419,7 @@ def render(case, gated_reads):
     L.append("    int[3] ar1 = [%d, %d, %d];\n" % tuple(ini["ar1"]))
     L.append("    int[3] ar2 = [%d, %d, %d];\n" % tuple(ini["ar2"]))
     L.append("    int n1 = %d;\n" % ini["n1"])
+    L.append("    Pt pt1;\n    pt1.x = %d; pt1.in.a = %d; pt1.in.b = %d;\n" % (ini["pt1"][0], ini["pt1"][1][0], ini["pt1"][1][1]))
     L.append("    Out* p1 = &o1;\n    int* q = &ar1[1];\n")
     L.append(dump_src(gated_reads))
     for (kind, cb, mops, callee) in case.ops:
